@@ -1,4 +1,4 @@
-import PcfgVerif.Properties.PQCore
+import PcfgVerif.Properties.PQRestore
 /-!
 # C08 — resuming a saved session loses nothing and repeats at most the tied group
 
